@@ -30,6 +30,14 @@ type DFS struct {
 	Livelocks   int64
 	firstLogSet bool
 	LastPrefix  []int // the prefix of the most recent execution (debugging)
+
+	// Stateful exploration (only meaningful with Bound < 0): Visited holds the canonical keys
+	// (sched.PointRec.StateKey) of the states whose outgoing choices have been or are being
+	// expanded; an execution stops expanding at the first already-visited state it runs into.
+	Stateful    bool
+	Visited     map[string]struct{}
+	Pruned      int64 // executions cut short at a visited state
+	Transitions int64 // choices expanded out of distinct states
 }
 
 func choiceCost(p sched.PointRec, c int) int {
@@ -96,6 +104,18 @@ func (d *DFS) explore(prefix []int, prefixCost int) {
 	choices := x.Choices()
 	for i := len(prefix); i < len(x.Trace); i++ {
 		p := x.Trace[i]
+		if d.Stateful {
+			if p.StateKey == "" {
+				d.HarnessErr = "stateful exploration without state keys (sched.TrackState is off)"
+				return
+			}
+			if _, seen := d.Visited[p.StateKey]; seen {
+				d.Pruned++
+				break
+			}
+			d.Visited[p.StateKey] = struct{}{}
+			d.Transitions += int64(p.N)
+		}
 		for alt := 1; alt < p.N; alt++ {
 			c := cost + choiceCost(p, alt)
 			if d.Bound >= 0 && c > d.Bound {
